@@ -1,19 +1,20 @@
 import BigtoolsModel.AutoSqlN
+import BigtoolsModel.Generated.Consts
 namespace ASN
-def FIELDS : List (List Nat) := [[32,32,32,115,116,114,105,110,103,32,110,97,109,101,59,32,32,32,32,32,32,32,32,34,78,97,109,101,32,111,102,32,105,116,101,109,46,34,10], [32,32,32,117,105,110,116,32,115,99,111,114,101,59,32,32,32,32,32,32,32,32,32,32,34,83,99,111,114,101,32,40,48,45,49,48,48,48,41,34,10], [32,32,32,99,104,97,114,91,49,93,32,115,116,114,97,110,100,59,32,32,32,32,32,34,43,32,111,114,32,45,32,102,111,114,32,115,116,114,97,110,100,34,10], [32,32,32,117,105,110,116,32,116,104,105,99,107,83,116,97,114,116,59,32,32,32,34,83,116,97,114,116,32,111,102,32,119,104,101,114,101,32,100,105,115,112,108,97,121,32,115,104,111,117,108,100,32,98,101,32,116,104,105,99,107,32,40,115,116,97,114,116,32,99,111,100,111,110,41,34,10], [32,32,32,117,105,110,116,32,116,104,105,99,107,69,110,100,59,32,32,32,32,32,34,69,110,100,32,111,102,32,119,104,101,114,101,32,100,105,115,112,108,97,121,32,115,104,111,117,108,100,32,98,101,32,116,104,105,99,107,32,40,115,116,111,112,32,99,111,100,111,110,41,34,10], [32,32,32,117,105,110,116,32,114,101,115,101,114,118,101,100,59,32,32,32,32,32,34,85,115,101,100,32,97,115,32,105,116,101,109,82,103,98,32,97,115,32,111,102,32,50,48,48,52,45,49,49,45,50,50,34,10], [32,32,32,105,110,116,32,98,108,111,99,107,67,111,117,110,116,59,32,32,32,32,34,78,117,109,98,101,114,32,111,102,32,98,108,111,99,107,115,34,10], [32,32,32,105,110,116,91,98,108,111,99,107,67,111,117,110,116,93,32,98,108,111,99,107,83,105,122,101,115,59,32,34,67,111,109,109,97,32,115,101,112,97,114,97,116,101,100,32,108,105,115,116,32,111,102,32,98,108,111,99,107,32,115,105,122,101,115,34,10], [32,32,32,105,110,116,91,98,108,111,99,107,67,111,117,110,116,93,32,99,104,114,111,109,83,116,97,114,116,115,59,32,34,83,116,97,114,116,32,112,111,115,105,116,105,111,110,115,32,114,101,108,97,116,105,118,101,32,116,111,32,99,104,114,111,109,83,116,97,114,116,34,10], [32,32,32,105,110,116,32,101,120,112,67,111,117,110,116,59,9,34,69,120,112,101,114,105,109,101,110,116,32,99,111,117,110,116,34,10], [32,32,32,105,110,116,91,101,120,112,67,111,117,110,116,93,32,101,120,112,73,100,115,59,9,34,67,111,109,109,97,32,115,101,112,97,114,97,116,101,100,32,108,105,115,116,32,111,102,32,101,120,112,101,114,105,109,101,110,116,32,105,100,115,46,32,65,108,119,97,121,115,32,48,44,49,44,50,44,51,46,46,46,46,34,10], [32,32,32,102,108,111,97,116,91,101,120,112,67,111,117,110,116,93,32,101,120,112,83,99,111,114,101,115,59,32,34,67,111,109,109,97,32,115,101,112,97,114,97,116,101,100,32,108,105,115,116,32,111,102,32,101,120,112,101,114,105,109,101,110,116,32,115,99,111,114,101,115,46,34,10]]
-def header : List Nat := [116,97,98,108,101,32,98,101,100,10,34,66,114,111,119,115,101,114,32,69,120,116,101,110,115,105,98,108,101,32,68,97,116,97,34,10,40,10,32,32,32,32,115,116,114,105,110,103,32,99,104,114,111,109,59,32,32,32,32,32,32,32,34,82,101,102,101,114,101,110,99,101,32,115,101,113,117,101,110,99,101,32,99,104,114,111,109,111,115,111,109,101,32,111,114,32,115,99,97,102,102,111,108,100,34,10,32,32,32,32,117,105,110,116,32,32,32,99,104,114,111,109,83,116,97,114,116,59,32,32,34,83,116,97,114,116,32,112,111,115,105,116,105,111,110,32,105,110,32,99,104,114,111,109,111,115,111,109,101,34,10,32,32,32,32,117,105,110,116,32,32,32,99,104,114,111,109,69,110,100,59,32,32,32,32,34,69,110,100,32,112,111,115,105,116,105,111,110,32,105,110,32,99,104,114,111,109,111,115,111,109,101,34,10]
+def FIELDS : List (List Nat) := Gen.AUTOSQL_FIELDS
+def header : List Nat := Gen.AUTOSQL_HEADER
 /-- decimal digits of `n` as code points (structural in `fuel`) -/
 def digitsF : Nat → Nat → List Nat → List Nat
   | 0, _, acc => acc
   | fuel + 1, n, acc => if n < 10 then (48 + n) :: acc else digitsF fuel (n / 10) ((48 + n % 10) :: acc)
 def digits (n : Nat) : List Nat := digitsF (n + 1) n []
-def lfieldA : List Nat := [32,32,32,108,115,116,114,105,110,103,32,102,105,101,108,100]
-def lfieldB : List Nat := [59,9,34,85,110,100,111,99,117,109,101,110,116,101,100,32,102,105,101,108,100,34,10]
+def lfieldA : List Nat := Gen.AUTOSQL_LFIELD_A
+def lfieldB : List Nat := Gen.AUTOSQL_LFIELD_B
 /-- `bed_autosql` for `extra` extra columns -/
 def bedAutosql (extra : Nat) : List Nat :=
   let std := (FIELDS.take (min extra FIELDS.length)).foldl (· ++ ·) header
   let more := (List.range (max extra FIELDS.length - FIELDS.length)).foldl
-    (fun acc k => acc ++ lfieldA ++ digits (k + FIELDS.length + 3 + 1) ++ lfieldB) std
+    (fun acc k => acc ++ lfieldA ++ digits (k + FIELDS.length + Gen.AUTOSQL_LFIELD_OFFSET) ++ lfieldB) std
   more ++ [41]
 
 #eval (List.range 41).all fun n => fieldCount asciiCC false (bedAutosql n) = 3 + n
